@@ -9,6 +9,8 @@ mod p_desc;
 mod p_encode;
 mod p_gather;
 mod p_hist;
+mod p_local;
+mod p_macros;
 mod p_names;
 mod p_registry;
 mod p_vec;
@@ -31,6 +33,8 @@ fn run_case(cx: &mut Ctx) {
         "C15" => p_desc::run_case(cx),
         "C08" => p_hist::run_case(cx),
         "C06" => p_registry::run_case(cx),
+        "C12" => p_local::run_case(cx),
+        "C20" => p_macros::run_case(cx),
         "C09" => {
             p_names::run_case(cx);
             cx.feeder = true;
